@@ -24,7 +24,7 @@ func c07Patch(g *GcsEmu, conds cloudstorage.Conditions, ctype string) int {
 func H_C07_writers() {
 	g := vNewEmu()
 	n := vBound("writers", 2, 3)
-	kind := vChoice("kind", 0, 6)
+	kind := vChoice("kind", 0, 7)
 	var base *storage.Object
 	if kind == 5 {
 		n = 2
@@ -33,7 +33,11 @@ func H_C07_writers() {
 	if kind == 6 {
 		n = 2
 	}
-	if kind != 1 && kind != 5 {
+	if kind == 7 {
+		n = 2
+		vPut(g, "b", "src", []byte("S"))
+	}
+	if kind != 1 && kind != 5 && kind != 7 {
 		base = vPut(g, "b", "o", []byte("base"))
 	}
 	codes := make([]int, n)
@@ -53,6 +57,15 @@ func H_C07_writers() {
 				codes[i] = c07Patch(g, cloudstorage.Conditions{MetagenerationMatch: base.Metageneration}, "text/"+string(content))
 			case 3: // unconditional patches: no update is lost
 				codes[i] = c07Patch(g, emptyConds, "text/"+string(content))
+			case 7: // an upload conditioned on non-existence racing a copy onto the same name
+				if i == 0 {
+					_, errs[i] = g.finishUpload(vCtx(), dontNeedUrls, &storage.Object{Bucket: "b", Name: "o"}, content, "b",
+						cloudstorage.Conditions{DoesNotExist: true})
+				} else {
+					w := vNewRecorder()
+					g.handleGcsCopy(vCtx(), dontNeedUrls, w, "b", "src/rewriteTo/b/b/o/o")
+					codes[i] = w.code
+				}
 			case 6: // an upload and a delete, both conditioned on the same generation
 				if i == 0 {
 					_, errs[i] = g.finishUpload(vCtx(), dontNeedUrls, &storage.Object{Bucket: "b", Name: "o"}, content, "b",
@@ -124,6 +137,16 @@ func H_C07_writers() {
 			vAssert(codes[i] == http.StatusOK, "patch-ok")
 		}
 		vAssert(st.metagen == base.Metageneration+int64(n), "no-lost-update: metageneration raised once per patch")
+	case 7:
+		vAssert(codes[1] == http.StatusOK, "copy-ok")
+		if errs[0] != nil {
+			// the upload lost: the object existed already, i.e. the copy came first and nobody overwrote it
+			vAssert(httpStatusCodeOf(errs[0]) == http.StatusPreconditionFailed, "losing-upload-412")
+			vAssert(string(st.content) == "S", "copy-content-kept-when-the-conditional-upload-lost")
+		} else {
+			// the upload won the creation: the copy then replaced it (a copy is unconditional)
+			vAssert(string(st.content) == "S", "copy-after-upload-replaces-it")
+		}
 	case 6:
 		wins := 0
 		if errs[0] == nil {
@@ -158,7 +181,7 @@ func H_C07_writers() {
 		if rmeta.Generation == 0 {
 			vAssert(false, "reader-generation")
 		}
-		if kind == 5 {
+		if kind == 5 || kind == 7 {
 			vAssert(len(rdata) == 1, "reader-sees-content-of-its-generation")
 		} else if base != nil && rmeta.Generation == base.Generation {
 			vAssert(string(rdata) == "base", "reader-sees-content-of-its-generation")
